@@ -3,6 +3,7 @@ pub mod chain;
 pub mod model;
 pub mod monitors;
 pub mod node;
+pub mod onchain;
 pub mod run;
 pub mod sim;
 pub mod taps;
